@@ -1074,7 +1074,9 @@ func SearchStreams(ctx context.Context, indexes []*Reader, limitIDs *bitmask.Lon
 
 			sortingLookup := (func() ([]uint32, error))(nil)
 			if resultLimit != 0 {
-				if section, ok := sorterLookupSections[sorting[0].Key]; sorter != nil && ok {
+				// the lookup is ordered by the first sort key only: with more keys, streams that tie on the
+				// first key are not in the requested order and stopping early would miss some of them
+				if section, ok := sorterLookupSections[sorting[0].Key]; sorter != nil && ok && len(sorting) == 1 {
 					res := []uint32(nil)
 					reverse := sorting[0].Dir == query.SortingDirDescending
 					sortingLookup = func() ([]uint32, error) {
